@@ -1,0 +1,56 @@
+//go:build verif
+// +build verif
+
+package db
+
+import (
+	"sync"
+
+	"github.com/syndtr/goleveldb/leveldb"
+	"github.com/syndtr/goleveldb/leveldb/opt"
+)
+
+// Verification hook H2 (build tag verif only).  The functions below are what the
+// harness's build overlay substitutes for the direct goleveldb calls in leveldb.go /
+// database.go: they perform exactly the same call, after telling the harness that a
+// physical write is about to happen (crash-point enumeration: the harness may end
+// the process there).  Without the overlay nothing calls them.
+
+// VerifWriteHook is called before every write call (Put / Delete / Batch write) of
+// every LevelDB instance of the process.
+var VerifWriteHook func(path string, kind string, batch *leveldb.Batch, key, value []byte)
+
+var verifPaths sync.Map // *leveldb.DB -> path
+
+func verifNotify(d *leveldb.DB, kind string, batch *leveldb.Batch, key, value []byte) {
+	if h := VerifWriteHook; h != nil {
+		path := ""
+		if p, ok := verifPaths.Load(d); ok {
+			path = p.(string)
+		}
+		h(path, kind, batch, key, value)
+	}
+}
+
+func verifOpenFile(path string, o *opt.Options) (*leveldb.DB, error) {
+	d, err := leveldb.OpenFile(path, o)
+	if err == nil {
+		verifPaths.Store(d, path)
+	}
+	return d, err
+}
+
+func verifPut(d *leveldb.DB, key, value []byte, wo *opt.WriteOptions) error {
+	verifNotify(d, "put", nil, key, value)
+	return d.Put(key, value, wo)
+}
+
+func verifDelete(d *leveldb.DB, key []byte, wo *opt.WriteOptions) error {
+	verifNotify(d, "delete", nil, key, nil)
+	return d.Delete(key, wo)
+}
+
+func verifWrite(d *leveldb.DB, b *leveldb.Batch, wo *opt.WriteOptions) error {
+	verifNotify(d, "batch", b, nil, nil)
+	return d.Write(b, wo)
+}
